@@ -53,6 +53,8 @@ struct Resolver {
     stack: Vec<Id>,
     /// Definitions that are part of a dependency cycle.
     cyclic: BTreeSet<Id>,
+    /// Substances by their symbol.
+    symbols: BTreeMap<String, Id>,
 }
 
 impl Resolver {
@@ -138,6 +140,34 @@ impl Resolver {
                 let name = &Rc::new(name[0..name.len() - 1].to_owned());
                 self.lookup_with_prefix(name, context)
             }
+            || context == Namespace::Unit && self.lookup_formula(name)
+    }
+
+    /// A substance's symbol, or a chemical formula made of symbols,
+    /// refers to those substances.
+    fn lookup_formula(&mut self, name: &str) -> bool {
+        let mut found = vec![];
+        let mut chars = name.chars().peekable();
+        while let Some(c) = chars.next() {
+            match c {
+                'A'..='Z' => {
+                    let mut symbol = c.to_string();
+                    if let Some('a'..='z') = chars.peek().cloned() {
+                        symbol.push(chars.next().unwrap());
+                    }
+                    match self.symbols.get(&symbol) {
+                        Some(id) => found.push(id.clone()),
+                        None => return false,
+                    }
+                }
+                '0'..='9' => (),
+                _ => return false,
+            }
+        }
+        for id in &found {
+            self.visit(id);
+        }
+        !found.is_empty()
     }
 
     fn eval(&mut self, expr: &Expr, context: Namespace) {
@@ -343,6 +373,7 @@ pub(crate) fn load_defs(ctx: &mut Context, defs: Defs) -> Vec<String> {
         long_names: BTreeMap::new(),
         stack: vec![],
         cyclic: BTreeSet::new(),
+        symbols: BTreeMap::new(),
     };
     let mut long_names = vec![];
     for DefEntry {
@@ -371,6 +402,21 @@ pub(crate) fn load_defs(ctx: &mut Context, defs: Defs) -> Vec<String> {
                     name: short_name,
                 },
             ));
+        }
+
+        if let Def::Substance {
+            symbol: Some(ref symbol),
+            ..
+        } = *def
+        {
+            let substance = resolver.intern(&name);
+            resolver.symbols.insert(
+                symbol.clone(),
+                Id {
+                    namespace: Namespace::Unit,
+                    name: substance,
+                },
+            );
         }
 
         let name = resolver.intern(&name);
